@@ -1,4 +1,4 @@
-"""C13 decoders never panic — K obligations (file header)."""
+"""C13 decoders never panic — K obligations (file header), M obligations (attribute blobs, binary chunks/files)."""
 from .. import common as C, gen, kani as K
 
 
@@ -34,17 +34,21 @@ def attr_groups(tier):
 
 
 def run(tier, seed, t0, only=None):
-    from ..mirsym import attrrun, mirdump
+    from ..mirsym import attrrun, binrun, mirdump
+    from . import bingroups
     gen.build_tools()
     gen.write_kani_tables()
-    mirdump.dump('rbx_types')
+    binrun.refresh_mir()
     hs = harnesses(tier)
     if only:
         hs = [h for h in hs if any(h.oid.startswith(o) for o in only)]
     gs = attr_groups(tier)
+    bs = bingroups.c13_groups(tier)
     if only:
         gs = [g for g in gs if any(g['id'].startswith(o) for o in only)]
+        bs = [g for g in bs if any(g['id'].startswith(o) for o in only)]
     obs = attrrun.run(gs, ('C13',)) if gs else []
+    obs += binrun.run(bs, ('C13',)) if bs else []
     obs += K.run_harnesses(hs, tier) if hs else []
     return C.finish('C13', tier, seed, obs, t0, ASSUMPTIONS + ASSUMPTIONS_M, TRUSTED + ['rustc nightly MIR of rbx_types; vlib/mirsym interpreter with Read/Write cursor models; z3'], RULE)
 
@@ -52,5 +56,8 @@ def run(tier, seed, t0, only=None):
 ASSUMPTIONS_M = [
     'attribute decoder: inputs up to the stated length with every byte symbolic; Read is a cursor model (one-shot, or delivering a symbolic number of bytes per call with Interrupted errors)',
     'allocation obligation: a buffer request whose size term can exceed max(64, 16 x input length) under the path condition is reported',
-    'binary chunk / PROP / PRNT decoders and the whole-file truncation obligation are not part of this claim yet',
+    'binary decoder: Chunk::decode on every input up to the stated length; Deserializer::deserialize on files whose one chunk body (META/SSTR/INST/PRNT/PROP of each wire type) is arbitrary up to the stated length; every strict prefix of one valid file',
+    'lz4 / zstd decompressors are contract stubs (output = arbitrary bytes of the announced length, or an error); their own memory safety is outside the claim',
+    'panics = MIR assert/abort terminators, slice/index bounds, unwrap/expect on None/Err, integer overflow only where release builds check it',
+    'XML reader (xml-rs pull parser) is not encoded: the rbx_xml half of the property is not claimed',
 ]
